@@ -354,11 +354,8 @@ func init() {
 		i := fr.i
 		st := i.fs()
 		st.tmpN++
-		dir, ok := a[0].(string)
-		if !ok {
-			unsup("CreateTemp with symbolic directory")
-		}
-		if dir == "" {
+		var dir value = a[0]
+		if d, ok := dir.(string); ok && d == "" {
 			dir = "/verifroot/ostmp"
 		}
 		pat := a[1]
@@ -368,7 +365,7 @@ func init() {
 				pre, suf = pc[:k], pc[k+1:]
 			}
 		}
-		name := mkConcat(mkConcat(mkConcat(dir+"/", pre), fmt.Sprintf("verif%d", st.tmpN)), suf)
+		name := mkConcat(mkConcat(mkConcat(mkConcat(dir, "/"), pre), fmt.Sprintf("verif%d", st.tmpN)), suf)
 		f, e := i.fsOpen(name, oRDWR|oCREATE|oEXCL, int64(0600))
 		return tuple{f, e}
 	})
